@@ -457,5 +457,412 @@ theorem half_away_below_tie (sc : Scale) (d : Dec) (hd : d.scale ≤ 28) (hwf : 
     valueOfShown (shownChars sc d) = sgn b * (m : Int) * (10 : Int) ^ (28 - sc.max) := by
   rw [(shown_value sc d hd hwf).1, hu, roundHalfAway_below_tie _ _ _ _ hr]
 
+/-! ### the kernel keeps stored scales ≤ 28 (so every printed figure is covered by `shown_value`) -/
+
+theorem chunkBy_forall {α κ} [DecidableEq κ] (key : α → κ) (P : α → Prop) :
+    ∀ (l : List α), (∀ a ∈ l, P a) → ∀ kg ∈ chunkBy key l, ∀ a ∈ kg.2, P a := by
+  intro l
+  induction l with
+  | nil => intro _ kg h; simp [chunkBy] at h
+  | cons a t ih =>
+    intro hl kg hkg x hx
+    have iht := ih (fun y hy => hl y (List.mem_cons_of_mem _ hy))
+    simp only [chunkBy] at hkg
+    split at hkg
+    · rename_i k g rest heq
+      have hg : ∀ y ∈ g, P y := fun y hy => iht (k, g) (by rw [heq]; exact List.mem_cons_self) y hy
+      have hrest : ∀ kg' ∈ rest, ∀ y ∈ kg'.2, P y :=
+        fun kg' h' y hy => iht kg' (by rw [heq]; exact List.mem_cons_of_mem _ h') y hy
+      split at hkg
+      · rcases List.mem_cons.mp hkg with h | h
+        · subst h
+          rcases List.mem_cons.mp hx with h2 | h2
+          · subst h2; exact hl _ List.mem_cons_self
+          · exact hg x h2
+        · exact hrest kg h x hx
+      · rcases List.mem_cons.mp hkg with h | h
+        · subst h
+          simp at hx; subst hx; exact hl _ List.mem_cons_self
+        · rcases List.mem_cons.mp h with h | h
+          · subst h; exact hg x hx
+          · exact hrest kg h x hx
+    · simp at hkg; subst hkg
+      simp at hx; subst hx; exact hl _ List.mem_cons_self
+
+/-- every group of `chunkBy` is a sublist-by-membership of the input -/
+theorem chunkBy_mem {α κ} [DecidableEq κ] (key : α → κ) (l : List α) :
+    ∀ kg ∈ chunkBy key l, ∀ a ∈ kg.2, a ∈ l :=
+  chunkBy_forall key (fun a => a ∈ l) l (fun _ h => h)
+
+theorem sumGroups_scale : ∀ (gs : List (AKey × List BPost)) (r : List (AKey × Dec)),
+    sumGroups gs = some r → (∀ kg ∈ gs, ∀ p ∈ kg.2, p.amount.scale ≤ 28) → ∀ ks ∈ r, ks.2.scale ≤ 28 := by
+  intro gs
+  induction gs with
+  | nil => intro r h _ ks hks; simp [sumGroups] at h; subst h; cases hks
+  | cons kg rest ih =>
+    intro r h hg ks hks
+    obtain ⟨k, g⟩ := kg
+    simp only [sumGroups] at h
+    split at h
+    · cases h
+    · rename_i s hs
+      split at h
+      · cases h
+      · rename_i r' hr'
+        cases h
+        rcases List.mem_cons.mp hks with h1 | h1
+        · subst h1
+          refine (Dec.sum_units _ s ?_ hs).2
+          intro d hd
+          obtain ⟨p, hp, rfl⟩ := List.mem_map.mp hd
+          exact hg (k, g) List.mem_cons_self p hp
+        · exact ih r' hr' (fun kg' h' => hg kg' (List.mem_cons_of_mem _ h')) ks h1
+
+theorem accountSums_scale (posts : List BPost) (sums : List (AKey × Dec))
+    (hp : ∀ p ∈ posts, p.amount.scale ≤ 28) (h : accountSums posts = some sums) :
+    ∀ ks ∈ sums, ks.2.scale ≤ 28 := by
+  unfold accountSums at h
+  refine sumGroups_scale _ sums h ?_
+  refine chunkBy_forall BPost.key (fun p => p.amount.scale ≤ 28) _ ?_
+  intro a ha
+  exact hp a ((List.mergeSort_perm posts _).mem_iff.mp ha)
+
+theorem bubbleUp_scale (st : Settings) (sums : List (AKey × Dec)) (hs : ∀ s ∈ sums, s.2.scale ≤ 28) :
+    ∀ (fuel : Nat) (me : AKey × Dec) (l : List (AKey × Dec)), bubbleUp st sums fuel me = .ok l →
+      me.2.scale ≤ 28 → ∀ x ∈ l, x.2.scale ≤ 28 := by
+  intro fuel
+  induction fuel with
+  | zero => intro me l h; simp [bubbleUp] at h
+  | succ fuel ih =>
+    intro me l h hme x hx
+    simp only [bubbleUp] at h
+    split at h
+    · cases h; simp at hx; subst hx; exact hme
+    · split at h
+      · rename_i p hp
+        obtain ⟨l', hl', rfl⟩ := (Outcome.map_ok _ _ _).mp h
+        rcases List.mem_append.mp hx with h1 | h1
+        · exact ih p l' hl' (hs p (List.mem_of_find?_eq_some hp)) x h1
+        · simp at h1; subst h1; exact hme
+      · split at h
+        · cases h
+        · cases h
+        · obtain ⟨l', hl', rfl⟩ := (Outcome.map_ok _ _ _).mp h
+          rcases List.mem_append.mp hx with h1 | h1
+          · exact ih _ l' hl' (by simp [Dec.zero]) x h1
+          · simp at h1; subst h1; exact hme
+
+theorem bubbleAll_scale (st : Settings) (sums : List (AKey × Dec)) (hs : ∀ s ∈ sums, s.2.scale ≤ 28) :
+    ∀ (l : List (AKey × Dec)) (ls : List (List (AKey × Dec))), bubbleAll st sums l = .ok ls →
+      (∀ s ∈ l, s.2.scale ≤ 28) → ∀ x ∈ ls.flatten, x.2.scale ≤ 28 := by
+  intro l
+  induction l with
+  | nil => intro ls h _ x hx; simp [bubbleAll] at h; subst h; simp at hx
+  | cons s rest ih =>
+    intro ls h hl x hx
+    simp only [bubbleAll] at h
+    split at h
+    · cases h
+    · cases h
+    · rename_i l1 h1
+      split at h
+      · cases h
+      · cases h
+      · rename_i ls' h2
+        cases h
+        rw [List.flatten_cons] at hx
+        rcases List.mem_append.mp hx with h3 | h3
+        · exact bubbleUp_scale st sums hs _ s l1 h1 (hl s List.mem_cons_self) x h3
+        · exact ih ls' h2 (fun y hy => hl y (List.mem_cons_of_mem _ hy)) x h3
+
+theorem btreeInsert_mem (x : AKey × Dec) : ∀ (l : List (AKey × Dec)) (y : AKey × Dec),
+    y ∈ btreeInsert l x → y ∈ l ∨ y = x := by
+  intro l
+  induction l with
+  | nil => intro y h; simp [btreeInsert] at h; exact Or.inr h
+  | cons z t ih =>
+    intro y h
+    simp only [btreeInsert] at h
+    split at h
+    · rcases List.mem_cons.mp h with h1 | h1
+      · exact Or.inr h1
+      · exact Or.inl h1
+    · split at h
+      · rcases List.mem_cons.mp h with h1 | h1
+        · exact Or.inl (h1 ▸ List.mem_cons_self)
+        · rcases ih y h1 with h2 | h2
+          · exact Or.inl (List.mem_cons_of_mem _ h2)
+          · exact Or.inr h2
+      · exact Or.inl h
+
+theorem btreeCollect_mem (l : List (AKey × Dec)) : ∀ y ∈ btreeCollect l, y ∈ l := by
+  unfold btreeCollect
+  suffices h : ∀ (l acc : List (AKey × Dec)) (y : AKey × Dec), y ∈ l.foldl btreeInsert acc → y ∈ acc ∨ y ∈ l by
+    intro y hy
+    rcases h l [] y hy with h1 | h1
+    · cases h1
+    · exact h1
+  intro l
+  induction l with
+  | nil => intro acc y h; exact Or.inl h
+  | cons x t ih =>
+    intro acc y h
+    rw [List.foldl_cons] at h
+    rcases ih _ y h with h1 | h1
+    · rcases btreeInsert_mem x acc y h1 with h2 | h2
+      · exact Or.inl h2
+      · exact Or.inr (h2 ▸ List.mem_cons_self)
+    · exact Or.inr (List.mem_cons_of_mem _ h1)
+
+theorem flattenOpt_forall {α} (P : α → Prop) : ∀ (l : List (Option (List α))) (r : List α),
+    flattenOpt l = some r → (∀ l', some l' ∈ l → ∀ x ∈ l', P x) → ∀ x ∈ r, P x := by
+  intro l
+  induction l with
+  | nil => intro r h _ x hx; simp [flattenOpt] at h; subst h; cases hx
+  | cons o rest ih =>
+    intro r h hl x hx
+    cases o with
+    | none => simp [flattenOpt] at h
+    | some l1 =>
+      simp only [flattenOpt] at h
+      split at h
+      · cases h
+      · rename_i r' hr'
+        cases h
+        rcases List.mem_append.mp hx with h1 | h1
+        · exact hl l1 List.mem_cons_self x h1
+        · exact ih r' hr' (fun l' h' => hl l' (List.mem_cons_of_mem _ h')) x h1
+
+/-- both figures of a row -/
+def RowOk (r : BalRow) : Prop := r.own.scale ≤ 28 ∧ r.tree.scale ≤ 28
+
+theorem treeNodes_scale (complete : List (AKey × Dec)) (hc : ∀ s ∈ complete, s.2.scale ≤ 28) :
+    ∀ (fuel : Nat) (me : AKey × Dec) (rows : List BalRow), treeNodes complete fuel me = some rows →
+      me.2.scale ≤ 28 → ∀ r ∈ rows, RowOk r := by
+  intro fuel
+  induction fuel with
+  | zero => intro me rows h; simp [treeNodes] at h
+  | succ fuel ih =>
+    intro me rows h hme r hr
+    simp only [treeNodes] at h
+    split at h
+    · cases h
+    · rename_i sub hsub
+      have hsubok : ∀ x ∈ sub, RowOk x := by
+        refine flattenOpt_forall RowOk _ sub hsub ?_
+        intro l' hl' x hx
+        obtain ⟨s, hs, hs'⟩ := List.mem_map.mp hl'
+        exact ih s l' hs' (hc s ((List.mem_filter.mp hs).1)) x hx
+      split at h
+      · cases h
+      · rename_i cs hcs
+        split at h
+        · cases h
+        · rename_i t ht
+          cases h
+          rcases List.mem_cons.mp hr with h1 | h1
+          · subst h1
+            have hcs' : cs.scale ≤ 28 := by
+              refine (Dec.sum_units _ cs ?_ hcs).2
+              intro d hd
+              obtain ⟨x, hx, rfl⟩ := List.mem_map.mp hd
+              exact (hsubok x ((List.mem_filter.mp hx).1)).2
+            exact ⟨hme, (Dec.add_units cs me.2 t hcs' hme ht).2⟩
+          · exact hsubok r h1
+
+theorem balance_scale (st : Settings) (posts : List BPost) (bal : List BalRow)
+    (hp : ∀ p ∈ posts, p.amount.scale ≤ 28) (h : balance st posts = .ok bal) : ∀ r ∈ bal, RowOk r := by
+  unfold balance at h
+  split at h
+  · cases h
+  · rename_i sums hsums
+    have hs := accountSums_scale posts sums hp hsums
+    split at h
+    · cases h
+    · cases h
+    · rename_i complete hcomp
+      have hc : ∀ s ∈ complete, s.2.scale ≤ 28 := by
+        unfold completeTree at hcomp
+        obtain ⟨ls, hls, rfl⟩ := (Outcome.map_ok _ _ _).mp hcomp
+        intro s hs'
+        exact bubbleAll_scale st sums hs sums ls hls hs s (btreeCollect_mem _ s hs')
+      split at h
+      · cases h
+      · rename_i rows hrows
+        cases h
+        intro r hr
+        have hr' : r ∈ rows := (List.mergeSort_perm rows _).mem_iff.mp hr
+        refine flattenOpt_forall RowOk _ rows hrows ?_ r hr'
+        intro l' hl' x hx
+        obtain ⟨s, hs', hs''⟩ := List.mem_map.mp hl'
+        exact treeNodes_scale complete hc _ s l' hs'' (hc s ((List.mem_filter.mp hs').1)) x hx
+
+/-- every delta is the `Decimal` sum of the account sums of one commodity chunk of the listed rows -/
+theorem deltaGroups_mem : ∀ (gs : List (String × List BalRow)) (ds : List (String × Dec)),
+    deltaGroups gs = some ds → ∀ cd ∈ ds, ∃ g, (cd.1, g) ∈ gs ∧ Dec.sum (g.map (·.own)) = some cd.2 := by
+  intro gs
+  induction gs with
+  | nil => intro ds h cd hcd; simp [deltaGroups] at h; subst h; cases hcd
+  | cons cg rest ih =>
+    intro ds h cd hcd
+    obtain ⟨c, g⟩ := cg
+    simp only [deltaGroups] at h
+    split at h
+    · cases h
+    · rename_i s hs
+      split at h
+      · cases h
+      · rename_i r' hr'
+        cases h
+        rcases List.mem_cons.mp hcd with h1 | h1
+        · subst h1; exact ⟨g, List.mem_cons_self, hs⟩
+        · obtain ⟨g', hg', hs'⟩ := ih r' hr' cd h1
+          exact ⟨g', List.mem_cons_of_mem _ hg', hs'⟩
+
+/-- what `fromIter` returns: rows with stored scales ≤ 28, and every delta is the exact sum of the unrounded
+    account sums of its commodity chunk -/
+theorem fromIter_figures (st : Settings) (sel : BalRow → Bool) (posts : List BPost) (b : Balance)
+    (hp : ∀ p ∈ posts, p.amount.scale ≤ 28) (h : fromIter st sel posts = .ok b) :
+    (∀ r ∈ b.rows, RowOk r) ∧
+    (∀ cd ∈ b.deltas, ∃ g, (cd.1, g) ∈ chunkBy (·.comm) b.rows ∧ (∀ r ∈ g, r ∈ b.rows) ∧
+        cd.2.units = (g.map (·.own.units)).sum ∧ cd.2.scale ≤ 28) := by
+  unfold fromIter at h
+  split at h
+  · cases h
+  · cases h
+  · rename_i bal hbal
+    have hb := balance_scale st posts bal hp hbal
+    split at h
+    · cases h
+    · rename_i ds hds
+      cases h
+      have hrows : ∀ r ∈ bal.filter sel, RowOk r := fun r hr => hb r ((List.mem_filter.mp hr).1)
+      refine ⟨hrows, ?_⟩
+      intro cd hcd
+      obtain ⟨g, hg, hs⟩ := deltaGroups_mem _ ds hds cd hcd
+      have hgm := chunkBy_mem (·.comm) (bal.filter sel) (cd.1, g) hg
+      have hsum := Dec.sum_units (g.map (·.own)) cd.2 (by
+        intro d hd
+        obtain ⟨x, hx, rfl⟩ := List.mem_map.mp hd
+        exact (hrows x (hgm x hx)).1) hs
+      refine ⟨g, hg, hgm, ?_, hsum.2⟩
+      rw [hsum.1, List.map_map]; rfl
+
+/-! ### display only -/
+
+/-- the scale enters after the kernel: `fromIter : Settings → (BalRow → Bool) → List BPost → Outcome Balance`
+    has no scale argument, and the report at *any* scale is `balanceTxt` of the same kernel figures -/
+theorem report_factors (st : Settings) (sel : BalRow → Bool) (posts : List BPost) (sc : Scale) (t : BalanceText)
+    (h : balanceReport st sel sc posts = .ok t) :
+    ∃ b, fromIter st sel posts = .ok b ∧ t = balanceTxt sc b ∧
+      ∀ sc', balanceReport st sel sc' posts = .ok (balanceTxt sc' b) := by
+  unfold balanceReport at h
+  obtain ⟨b, hb, rfl⟩ := (Outcome.map_ok _ _ _).mp h
+  refine ⟨b, hb, rfl, ?_⟩
+  intro sc'
+  unfold balanceReport
+  rw [hb]; rfl
+
+/-- **C17 (4) display only.**  Every figure the balance report prints is `shown sc` of the kernel's *exact*
+    figure – rows in the kernel's order, `own`/`tree`/delta positions – where the kernel figures are computed
+    without the scale (the same `b` serves every scale `sc'`).  Hence the value each printed figure denotes is the
+    exact figure rounded half away from zero; in particular a printed delta (total) is the *rounded exact sum* of
+    the unrounded account sums of its commodity – never the sum of the rounded parts. -/
+theorem display_only (st : Settings) (sel : BalRow → Bool) (posts : List BPost) (sc : Scale) (t : BalanceText)
+    (hwf : sc.WF) (hp : ∀ p ∈ posts, p.amount.scale ≤ 28)
+    (h : balanceReport st sel sc posts = .ok t) :
+    ∃ b, fromIter st sel posts = .ok b
+      ∧ (∀ sc', balanceReport st sel sc' posts = .ok (balanceTxt sc' b))
+      ∧ t.rows = b.rows.map (fun r => ⟨r.acct, r.comm, shown sc r.own, shown sc r.tree⟩)
+      ∧ t.deltas = b.deltas.map (fun cd => (cd.1, shown sc cd.2))
+      ∧ (∀ r ∈ b.rows,
+          valueOfShown (shown sc r.own).toList = roundHalfAway (28 - sc.max) r.own.units ∧
+          valueOfShown (shown sc r.tree).toList = roundHalfAway (28 - sc.max) r.tree.units)
+      ∧ (∀ cd ∈ b.deltas, ∃ g, (cd.1, g) ∈ chunkBy (·.comm) b.rows ∧ (∀ r ∈ g, r ∈ b.rows) ∧
+          valueOfShown (shown sc cd.2).toList = roundHalfAway (28 - sc.max) (g.map (·.own.units)).sum) := by
+  obtain ⟨b, hb, rfl, hall⟩ := report_factors st sel posts sc t h
+  have hf := fromIter_figures st sel posts b hp hb
+  refine ⟨b, hb, hall, rfl, rfl, ?_, ?_⟩
+  · intro r hr
+    rw [shown_toList, shown_toList]
+    exact ⟨(shown_value sc r.own (hf.1 r hr).1 hwf).1, (shown_value sc r.tree (hf.1 r hr).2 hwf).1⟩
+  · intro cd hcd
+    obtain ⟨g, hg, hgm, hu, hs⟩ := hf.2 cd hcd
+    refine ⟨g, hg, hgm, ?_⟩
+    rw [shown_toList, (shown_value sc cd.2 hs hwf).1, hu]
+
+/-- the register's `amount_to_string` is the shown figure up to one leading blank -/
+theorem amountToString_strip (sc : Scale) (d : Dec) (w : Nat) :
+    (amountToString sc d w).dropWhile (· == ' ') = shownChars sc d := by
+  have hne : ∀ c t, shownChars sc d = c :: t → (c == ' ') = false := by
+    intro c t h
+    obtain ⟨ip, fp, heq, hip, hdig, _, _⟩ := shown_shape sc d
+    rw [heq] at h
+    cases ip with
+    | nil => exact absurd rfl hip
+    | cons i it =>
+      have hi := hdig i List.mem_cons_self
+      by_cases hn : (d.roundHA (sc.getPrecision d)).neg
+      · simp [hn] at h; rw [← h.1]; decide
+      · simp [hn] at h; rw [← h.1]
+        rw [beq_eq_false_iff_ne]; intro e; subst e; exact absurd hi (by decide)
+  have hstrip : (shownChars sc d).dropWhile (· == ' ') = shownChars sc d := by
+    cases hc : shownChars sc d with
+    | nil => rfl
+    | cons c t => simp [hne c t hc]
+  unfold amountToString
+  split
+  · simp [hstrip]
+  · exact hstrip
+
+/-! ### non-vacuity and regression witnesses (concrete figures; `decide` evaluates the model) -/
+
+def dec (neg : Bool) (coeff scale : Nat) : Dec := ⟨neg, coeff, scale⟩
+
+-- exact midpoints go away from zero, both signs; one ulp below goes towards zero
+example : shownChars ⟨2, 2⟩ (dec false 1005 3) = "1.01".toList := by decide
+example : shownChars ⟨2, 2⟩ (dec true 1005 3) = "-1.01".toList := by decide
+example : shownChars ⟨2, 2⟩ (dec false 100499 5) = "1.00".toList := by decide
+example : shownChars ⟨0, 0⟩ (dec false 25 1) = "3".toList := by decide
+example : shownChars ⟨0, 0⟩ (dec true 5 1) = "-1".toList := by decide
+-- half-even or truncation would print 0.12 here
+example : shownChars ⟨2, 2⟩ (dec false 125 3) = "0.13".toList := by decide
+-- carry into a new integer digit
+example : shownChars ⟨2, 2⟩ (dec false 9995 3) = "10.00".toList := by decide
+-- fewer decimals than min: padded; between min and max: as stored; trailing zeros beyond max: dropped
+example : shownChars ⟨2, 7⟩ (dec false 15 1) = "1.50".toList := by decide
+example : shownChars ⟨2, 7⟩ (dec false 12345 4) = "1.2345".toList := by decide
+example : shownChars ⟨2, 4⟩ (dec false 12300000 7) = "1.2300".toList := by decide
+-- a negative figure that rounds to zero loses its sign (`Decimal::from_parts`); a stored `-0.000` keeps it
+example : shownChars ⟨2, 2⟩ (dec true 4 3) = "0.00".toList := by decide
+example : shownChars ⟨2, 2⟩ (dec true 0 3) = "-0.00".toList := by decide
+-- F18 witness: 1000 at 28 decimals is 33 characters (the real formatter's 32-byte buffer overflowed)
+example : (shownChars ⟨28, 28⟩ (dec false 1000 0)).length = 33 := by decide
+-- `Scale::from`
+example : Scale.ofRaw 3 2 = .err ∧ Scale.ofRaw 0 29 = .err ∧ Scale.ofRaw 28 28 = .ok ⟨28, 28⟩ := by decide
+-- hypotheses of the theorems are satisfiable: a figure that does not fit, and one that does
+example : ¬ Fits ⟨2, 2⟩ (dec false 1005 3) := by
+  rw [fits_iff_dvd _ _ (by decide)]
+  rintro ⟨n, hn⟩
+  have : (dec false 1005 3).units = 1005 * 10 ^ 25 := by decide
+  rw [this] at hn
+  have h2 : (1005 : Int) * 10 ^ 25 = n * 10 ^ 26 := hn
+  omega
+example : Fits ⟨2, 4⟩ (dec false 12300000 7) := ⟨12300, by decide⟩
+example : valueOfShown "-1.01".toList = -101 * 10 ^ 26 ∧ decimalsOf "-1.01".toList = 2 := by decide
+
+/-- **Parts round up, the total rounds down.**  Account sums 0.006 and 0.006 of one commodity at scale 2..2:
+    each is shown as 0.01, their delta 0.012 is shown as 0.01 – the rounded exact total, not the sum 0.02 of the
+    shown parts. -/
+def partsUp : Balance :=
+  { rows := [⟨["p", "c1"], "", dec false 6 3, dec false 6 3⟩, ⟨["p", "c2"], "", dec false 6 3, dec false 6 3⟩],
+    deltas := [("", dec false 12 3)] }
+
+example : Dec.sum (partsUp.rows.map (·.own)) = some (dec false 12 3) := by decide
+example : (partsUp.rows.map (fun r => shownChars ⟨2, 2⟩ r.own)) = ["0.01".toList, "0.01".toList] := by decide
+example : (partsUp.deltas.map (fun cd => shownChars ⟨2, 2⟩ cd.2)) = ["0.01".toList] := by decide
+example : valueOfShown "0.01".toList + valueOfShown "0.01".toList ≠ valueOfShown "0.01".toList := by decide
+example : valueOfShown (shownChars ⟨2, 2⟩ (dec false 12 3)) = roundHalfAway 26 (6 * 10 ^ 25 + 6 * 10 ^ 25) := by decide
+
 end C17
 end Tackler
